@@ -134,6 +134,45 @@ def flags_of(item, enum):
     return v
 
 
+def html_table():
+    hp = strip_comments(read("XMLSupport/XalanHTMLElementsProperties.hpp"))
+    enum_e, enum_a = {}, {}
+    for mm in re.finditer(r"(\w+)\s*=\s*\(1\s*<<\s*(\d+)\)", hp):
+        (enum_a if mm.group(1).startswith("ATTR") else enum_e)[mm.group(1)] = 1 << int(mm.group(2))
+    for k in ("EMPTY", "RAW", "BLOCK", "HEADELEM", "SCRIPTELEM", "STYLEELEM", "WHITESPACESENSITIVE"):
+        if k not in enum_e:
+            raise AnchorError("ElemDesc::%s not found" % k)
+    for k in ("ATTRURL", "ATTREMPTY"):
+        if k not in enum_a:
+            raise AnchorError("ElemDesc::%s not found" % k)
+    enum = dict(enum_e)
+    enum.update(enum_a)
+    hc = strip_comments(read("XMLSupport/XalanHTMLElementsProperties.cpp"))
+    m = need(r"s_elementProperties\[\]\s*=\s*\{", hc, "s_elementProperties table")
+    items, _ = brace_items(hc, m.end() - 1)
+    rows = []
+    for it in items:
+        parts, _ = brace_items(it, 0)
+        if len(parts) != 3:
+            raise AnchorError("HTML table: entry with %d fields" % len(parts))
+        nm = name_of(parts[0])
+        fl = flags_of(parts[1], enum)
+        attrs = []
+        ai, _ = brace_items(parts[2], 0)
+        for a in ai:
+            ap, _ = brace_items(a, 0)
+            an = name_of(ap[0])
+            if not an:
+                break
+            attrs.append((an, flags_of(ap[1], enum)))
+        rows.append((nm, fl, attrs))
+    return rows, enum_e, enum_a
+
+
+def html_names():
+    return ["".join(map(chr, r[0])) for r in html_table()[0] if r[0]]
+
+
 def gen_outopt():
     facts = {}
     fx = read("XMLSupport/FormatterToXMLUnicode.hpp")
@@ -262,37 +301,7 @@ def gen_outopt():
     out += "Definition text_method_checks_representability : bool := false.\n"
 
     # ---- HTML element table
-    hp = strip_comments(read("XMLSupport/XalanHTMLElementsProperties.hpp"))
-    enum_e, enum_a = {}, {}
-    for mm in re.finditer(r"(\w+)\s*=\s*\(1\s*<<\s*(\d+)\)", hp):
-        (enum_a if mm.group(1).startswith("ATTR") else enum_e)[mm.group(1)] = 1 << int(mm.group(2))
-    for k in ("EMPTY", "RAW", "BLOCK", "HEADELEM", "SCRIPTELEM", "STYLEELEM", "WHITESPACESENSITIVE"):
-        if k not in enum_e:
-            raise AnchorError("ElemDesc::%s not found" % k)
-    for k in ("ATTRURL", "ATTREMPTY"):
-        if k not in enum_a:
-            raise AnchorError("ElemDesc::%s not found" % k)
-    enum = dict(enum_e)
-    enum.update(enum_a)
-    hc = strip_comments(read("XMLSupport/XalanHTMLElementsProperties.cpp"))
-    m = need(r"s_elementProperties\[\]\s*=\s*\{", hc, "s_elementProperties table")
-    items, _ = brace_items(hc, m.end() - 1)
-    rows = []
-    for it in items:
-        parts, _ = brace_items(it, 0)
-        if len(parts) != 3:
-            raise AnchorError("HTML table: entry with %d fields" % len(parts))
-        nm = name_of(parts[0])
-        fl = flags_of(parts[1], enum)
-        attrs = []
-        ai, _ = brace_items(parts[2], 0)
-        for a in ai:
-            ap, _ = brace_items(a, 0)
-            an = name_of(ap[0])
-            if not an:
-                break
-            attrs.append((an, flags_of(ap[1], enum)))
-        rows.append((nm, fl, attrs))
+    rows, enum_e, enum_a = html_table()
     named = [r for r in rows if r[0]]
     if len(named) < 80:
         raise AnchorError("HTML table: only %d named entries" % len(named))
